@@ -341,7 +341,7 @@ def r10_1(prog: Program, chk: Check) -> None:
         "R10.1",
         "no set/frozenset-typed value reaches a construct whose result depends on iteration order, unless "
         "discharged by an order-insensitivity idiom or a read-and-recorded exception",
-        floor=30,
+        floor=15,
     )
     st = SetTyping(prog)
     depth = 2 if chk.tier == "thorough" else 1
@@ -469,7 +469,7 @@ def r10_2(prog: Program, chk: Check) -> None:
         "state that outlives a node visit is restored on every exit: context managers yield inside "
         "try/finally (or a with), manual push/pop and save/restore pairs restore in a finally block, "
         "qcore.override is only used as a with-item",
-        floor=25,
+        floor=15,
     )
     n_cm = 0
     for m, q, fn in prog.iter_functions():
